@@ -331,15 +331,13 @@ def check_history(r, shared_ids, want_final=True):
                         pd["ckey"][c] = None
         elif k == "dbnew" and rc == "ok":
             pid = int(out[1].split("=")[1])
-            if pid in live_priv or pid in shared_ids:
-                probs.append(("db-id", "iwkv_new_db returned id %d which is in use" % pid))
+            if pid in shared_ids:
+                probs.append(("db-id", "iwkv_new_db returned id %d which belongs to a shared database" % pid))
             dead_ids.discard(pid)
             privdb[(tid, int(w[1]) % 4)] = dict(id=pid, map={}, ckey={})
-            live_priv[pid] = (tid, int(w[1]) % 4)
         elif k == "dbdel" and rc == "ok":
             pd = privdb.pop((tid, int(w[1]) % 4), None)
             if pd:
-                live_priv.pop(pd["id"], None)
                 dead_ids.add(pd["id"])
         elif k == "dbget":
             created.setdefault(int(w[1]), []).append((int(w[2]), o["out"], o))
@@ -370,7 +368,7 @@ def check_history(r, shared_ids, want_final=True):
             for key, v in d.items():
                 if db in shared_ids and (db, key) not in regs:
                     probs.append(("final-dump", "database %d holds %s=%s which no call wrote" % (db, key, v)))
-            if db in dead_ids:
+            if db in dead_ids and db not in set(pd["id"] for pd in privdb.values()):
                 probs.append(("final-dump", "destroyed database %d is still present" % db))
         for (tid, slot), pd in privdb.items():
             got = final.get(pd["id"])
